@@ -6,6 +6,7 @@
   C17.R4  the existence check runs before the backend is called and raises an error naming the missing module
   C17.R5  remaining options are passed through to the drawing backend unchanged
   C17.R6  label computation keeps no state (no writes to the graph object, class or module)
+  C17.R7  the public entry point `EvaluableArchitecture.visualize(**kwargs)` hands the caller's options to the graph's draw() unchanged
 
 All rules are decided on the *deep view* of the public entry point `NetworkxGraph.draw` (rules/c17_view.py): one flat function body
 in which the private helpers - whatever their names, number and location - are substituted.  Roles are found through the
@@ -53,6 +54,7 @@ def run(repo: Repo) -> Result:
     V = deep_view(repo, draw, T, allow=lambda caller, callee: callee.name not in VOCABULARY)
     M = Model(repo, draw, V)
     res.analysed["inlined_into_draw"] = sorted({x.split("::")[-1] for x in V.inlined})
+    visualize_passthrough(repo, res)
     ctx = Ctx(repo, res, draw, M)
     ctx.lint()
     ctx.options()
@@ -77,6 +79,112 @@ def add_sites(repo: Repo, res: Result, rule: str, sites) -> int:
         elif s.verdict == "unclassified":
             res.observe(f"{rule} unclassified (not armed) {s.fi.relpath}::{s.fi.qualname}: `{norm(s.node, 60)}` - {s.why}")
     return n
+
+
+ARCH_MOD = "pytestarch.eval_structure.evaluable_architecture"
+MUTATING = {"pop", "popitem", "clear", "update", "setdefault", "__setitem__", "__delitem__", "remove", "append", "extend", "insert", "sort", "reverse", "add", "discard"}
+
+
+class _Light:
+    """what rules/c17_options.OptionsEval needs of a context"""
+
+    def __init__(self, repo: Repo, fi, M: Model) -> None:
+        self.repo, self.draw, self.M = repo, fi, M
+        self.types = types_of(repo)
+        self.vocabulary = VOCABULARY | {"draw"}
+
+
+def visualize_passthrough(repo: Repo, res: Result) -> None:
+    """C17.R7: between the public `visualize(**kwargs)` and the graph's `draw(**kwargs)` nothing is taken out of, added to or changed in
+    the caller's options - in particular the aliases mapping is not filtered, rebuilt or mutated.  Decided on the deep view of every
+    concrete `visualize` (the graph's draw() stays a call in it) with the same symbolic evaluation of the spliced dict as R5,
+    with consumed = {} and added = {}."""
+    from .c17_options import OptionsEval
+    from .c17_rules import opaque_calls
+
+    rule = "C17.R7"
+    base_cls = repo.get_class(f"{ARCH_MOD}.EvaluableArchitecture")
+    if base_cls is None:
+        raise AnalysisError("EvaluableArchitecture (public API) not found")
+    def stub(m) -> bool:
+        body = [s_ for s_ in m.node.body if not (isinstance(s_, ast.Expr) and isinstance(s_.value, ast.Constant))]
+        return all(isinstance(s_, ast.Pass) or (isinstance(s_, ast.Raise) and s_.exc is not None and "NotImplementedError" in norm(s_.exc)) for s_ in body)
+
+    impls = [m for m in repo.implementations(base_cls, "visualize") if not m.is_abstract and not stub(m)]
+    if not impls:
+        raise AnalysisError("no concrete EvaluableArchitecture.visualize found")
+    T = types_of(repo)
+    for vis in impls:
+        key = f"{vis.relpath}::{vis.qualname}::"
+        wh = where(vis, vis.node)
+
+        def is_draw(caller, callee) -> bool:
+            return callee.name == "draw" and callee.cls is not None
+
+        V = deep_view(repo, vis, T, allow=lambda caller, callee: not is_draw(caller, callee))
+        M = Model(repo, vis, V)
+        L = _Light(repo, vis, M)
+        if M.kw is None:
+            res.undecide(rule, key + "options to draw", "visualize() no longer takes **kwargs: the hand-over of the options cannot be read", wh)
+            continue
+        calls = []
+        for c in _walk_own(M.fn.body):
+            if isinstance(c, ast.Call) and isinstance(c.func, ast.Attribute) and c.func.attr == "draw":
+                ctx_, orig = getattr(c, "_src", (V, c))
+                try:
+                    cs, _how = T.callees(ctx_, orig, byname_fallback=True) if isinstance(orig, ast.Call) else ([], "")
+                except Exception:  # noqa: BLE001
+                    cs = []
+                if not cs or any(f.name == "draw" and f.cls is not None for f in cs):
+                    calls.append(c)
+        if not calls:
+            if opaque_calls(L):
+                res.undecide(rule, key + "options to draw", "no call of the graph's draw() in the flattened visualize(), but calls that could not be followed", wh)
+            else:
+                res.add(rule, key + "options to draw", False, "visualize() does not call the graph's draw(): nothing the caller passes is drawn", wh)
+            continue
+        cfg = cfg_of(V)
+        problems, unsure = [], []
+        ev = OptionsEval(L)
+        for c in calls:
+            star = [k for k in c.keywords if k.arg is None]
+            named = [k.arg for k in c.keywords if k.arg is not None]
+            if c.args:
+                problems.append("draw() is called with positional arguments")
+            if named:
+                problems.append(f"options {named} are fixed by visualize() itself")
+            if len(star) != 1:
+                problems.append("the caller's options are not forwarded as **kwargs" if not star else "several ** arguments")
+            else:
+                ev.eval(star[0].value)
+        if cfg.paths_avoiding("<ENTRY>", EXIT, {M.stmt_of(c) for c in calls}):
+            problems.append("draw() is not reached on every path that returns normally")
+        odd = list(dict.fromkeys(ev.odd))
+        if ev.consumed:
+            k0 = sorted(ev.consumed)[0]
+            problems.append(f"visualize() takes the option(s) {sorted(ev.consumed)} out of what the caller passed (`{norm(_node(ev.consumed[k0][0]), 50)}`)")
+        if ev.stored:
+            k0 = sorted(ev.stored)[0]
+            problems.append(f"visualize() sets / rebuilds the option(s) {sorted(ev.stored)} itself (`{norm(M.stmt_of(ev.stored[k0][0][0][-1]), 70)}`): draw() does not receive the caller's value")
+        if not ev.passthrough and not odd and not any("forwarded" in p_ for p_ in problems):
+            problems.append("the dict handed to draw() does not contain the caller's options")
+        # option values changed in place (`kwargs['aliases'].pop(..)`, `aliases = kwargs.get('aliases'); del aliases[k]`)
+        value_names = {n for n, bs in M.binds.items() if len(bs) == 1 and bs[0].kind == "assign" and bs[0].value is not None and M.option_source(bs[0].value) is not None}
+
+        def is_value(e: ast.expr) -> bool:
+            return (isinstance(e, ast.Name) and e.id in value_names) or M.option_source(e) is not None
+
+        for n in _walk_own(M.fn.body):
+            if isinstance(n, ast.Call) and isinstance(n.func, ast.Attribute) and n.func.attr in MUTATING and is_value(n.func.value):
+                problems.append(f"`{norm(n, 60)}` changes a value the caller passed in place")
+            elif isinstance(n, ast.Subscript) and isinstance(n.ctx, (ast.Store, ast.Del)) and is_value(n.value):
+                problems.append(f"`{norm(M.stmt_of(n), 60)}` changes a value the caller passed in place")
+        if problems:
+            res.add(rule, key + "options to draw", False, "; ".join(dict.fromkeys(problems)), M.where(calls[0]), kind="flow")
+        elif odd:
+            res.undecide(rule, key + "options to draw", "; ".join(odd[:2]), M.where(calls[0]))
+        else:
+            res.add(rule, key + "options to draw", True, f"`{norm(calls[0], 60)}` receives exactly what the caller passed to visualize(): nothing removed, added, rebuilt or changed in place", M.where(calls[0]), kind="flow")
 
 
 def _node(x):
@@ -117,8 +225,8 @@ class Ctx:
                 return True
             if s.verdict != "unsafe":
                 return False
-            if s.op in ("startswith", "slice-by-len", "removeprefix", "partition"):
-                return True
+            if s.op in ("startswith", "slice-by-len", "removeprefix", "partition", "slice-compare", "slice-by-index", "zip-components", "char-compare"):
+                return True  # tests / cuts that are judged together with the rest of the match condition
             # replace(prefix, alias, 1): only the first occurrence - the matched prefix - is replaced
             return s.op == "replace" and isinstance(s.node, ast.Call) and len(s.node.args) == 3 and isinstance(s.node.args[2], ast.Constant) and s.node.args[2].value == 1
 
